@@ -43,6 +43,8 @@ type world struct {
 	strat3   map[int]byte     // C02: gotype -> 'R', 'A' or 'F' (reflection); overrides strat
 	decl     map[[2]int][]int // C02: (gotype, field) -> declared argument names in order
 	regOrder map[[2]int][]int // C02: the parameter order given to RegisterField, when it was used
+	filled   map[int]bool     // C02: struct objects whose fields have all been placed
+	objField map[[2]int]bool  // C02: (gotype, field) -> the field's type is a plain object type (no list, not abstract)
 }
 
 type lres struct{ items []interface{} }
@@ -80,6 +82,8 @@ func (w *world) obj(id int) interface{} {
 		return o
 	}
 	switch w.strat3[n.gotype] {
+	case 'G':
+		return w.structObj(id, n.gotype)
 	case 'F':
 		o = newReflectObj(w, id, n.gotype)
 	case 'A':
